@@ -253,6 +253,22 @@ def run(repo, rep):
     from . import c15
 
     rep.run_borrowed(c15, {"C15-d": "C06-m"}, repo)
+    from . import c10
+
+    rep.run_borrowed(c10, {"C10-d": "C06-m"}, repo)
+    # zero point registers: get_zero_point returns the operation's zero point whenever a quantisation is given (scale or not)
+    util = repo.mod("register_command_stream_util")
+    itz = Interp(repo, util)
+    sitez = "ethosu/vela/register_command_stream_util.py:get_zero_point"
+    for label, q, want in (("no quantisation", None, 0), ("zero point with a scale", AObj("q", {"scale_f32": Unknown("scale"), "zero_point": BV.sym("zp", 16)}), "zp"),
+                           ("zero point without a scale (scale_f32=None is legal API input)", AObj("q", {"scale_f32": None, "zero_point": BV.sym("zp", 16)}), "zp")):
+        res = [p for p in itz.run("get_zero_point", lambda q=q: ([AObj("fm", {"quantization": q})], {}))]
+        vals = [p.value for p in res if p.kind == "return"]
+        if want == 0:
+            ok = len(vals) == len(res) and all(v == 0 for v in vals) and vals
+        else:
+            ok = len(vals) == len(res) and vals and all(isinstance(v, BV) and all(b == ("s", "zp", i) for i, b in enumerate(v.bits[:16])) or (isinstance(v, Unknown) and "zp" in v.text) for v in vals)
+        rep.check(bool(ok), "C06-d", sitez, f"{label}: the zero point registers get {'0' if want == 0 else 'the given zero point'}", f"returns {vals!r} on {[p.decisions for p in res]}")
 
 
 # ------------------------------------------------------------------ a, b: tables
@@ -801,6 +817,11 @@ def rule_bits(repo, rep, gen, api):
                 for ax in ("height", "width", "depth"):
                     if f"shape.{ax}" in t:
                         want["broadcast_" + ax] = 1
+        if not want["broadcast_scalar"]:
+            # the three dimensions are compared independently: a path that never looked at one of them cannot broadcast it
+            looked = {ax for ax in ("height", "width", "depth") for t, d in p.decisions if "!=" in t and f"shape.{ax}" in t}
+            rep.check(looked == {"height", "width", "depth"}, "C06-c", site, f"height, width and depth are each compared on the path {[d for t, d in p.decisions if '!=' in t]}",
+                      f"only {sorted(looked)} compared on {p.decisions}: the remaining dimension cannot get its broadcast bit on this path (the hardware then reads the full extent of a size-1 operand)")
         b = v if isinstance(v, BV) else BV.const(int(v))
         ok = all(tuple(_field(b, spec, k)) == _bits(x, 1) for k, x in want.items()) and all(
             x == 0 for x in _field(b, spec, "reserved0") + _field(b, spec, "reserved1"))
